@@ -39,6 +39,10 @@ def seg_table(draw, allelic):
     # copy numbers are "arbitrary": occasionally a whole table sits at a huge base, where neighbouring integers differ only
     # in their last few bits (not with allele-specific columns, whose split would no longer be meaningful)
     cn_base = 0 if allelic else draw(st.sampled_from([0, 0, 0, 0, 100000, 10 ** 6]))
+    # in half of the tables the log2 ratios follow the (sticky) copy-number runs, so that the calling methods reproduce
+    # those runs - long amplified / deleted stretches with neighbouring levels (5, 6, 6 ...) - instead of levels that
+    # change with every segment
+    coupled = draw(st.booleans())
     for c in chroms:
         n = draw(st.one_of(st.integers(1, 6), st.integers(1, 30)))
         pos = draw(st.integers(0, 5000))
@@ -53,6 +57,10 @@ def seg_table(draw, allelic):
             if draw(st.integers(0, 2)) == 0:
                 ci_kind = draw(st.sampled_from(["pos", "neg", "zero", "edge0"]))
             log2 = draw(st.sampled_from(palette)) + draw(st.integers(-8, 8)) / 64.0
+            if coupled:
+                # (+0.37/64: never exactly on an integer copy number for any ploidy, where the last bit of a weighted mean
+                # would decide the call)
+                log2 = math.log2(max(cn, 0.25) / 2.0) + (draw(st.integers(-4, 4)) + 0.37) / 64.0
             w = draw(st.sampled_from([0.0, 0.25, 1.0, 3.5, 17.0]))
             row = {"chromosome": c, "start": pos, "end": pos + length, "gene": draw(st.sampled_from(["A", "B", "-", "A,B"])),
                    "log2": log2, "probes": draw(st.integers(1, 200)), "weight": w, "cn": cn + cn_base,
